@@ -45,4 +45,38 @@ def joinChecks (k : Kind) (oldIds newIds : List Nat) (expected got : Params) : E
 /-- the freeze: once a re-init has been committed the old group refuses to build or process commits -/
 def commitAllowed (pendingReinit : Bool) : Bool := !pendingReinit
 
+/-- the two entry points every commit goes through: building one (`commit_internal`: `commit`, `commit_builder().build()`,
+`build_detached()`, whatever proposals are carried by value) and processing a received one (`process_commit`: a
+member's commit or an external commit, public or private) -/
+inductive CommitEntry | build | process
+  deriving DecidableEq, Repr
+
+inductive FreezeErr | groupUsedAfterReInit
+  deriving DecidableEq, Repr
+
+/-- both entry points test `pending_reinit` before anything else (apart from `ExistingPendingCommit` when building) -/
+def commitVerdict (pendingReinit : Bool) (_e : CommitEntry) : Except FreezeErr Unit :=
+  if commitAllowed pendingReinit then .ok () else .error .groupUsedAfterReInit
+
+/-- the part of the old group's state the freeze is about -/
+structure OldGroup where
+  epoch : Nat
+  pendingReinit : Bool
+  deriving DecidableEq, Repr
+
+/-- a commit attempt (built or received) on the old group; `carriesReinit`: the commit contains a ReInit proposal.
+A refused attempt leaves the state as it was. -/
+def OldGroup.attempt (g : OldGroup) (e : CommitEntry) (carriesReinit : Bool) : OldGroup × Bool :=
+  match commitVerdict g.pendingReinit e with
+  | .ok () => ({ epoch := g.epoch + 1, pendingReinit := carriesReinit }, true)
+  | .error _ => (g, false)
+
+/-- a sequence of attempts: the final state and the verdict of each -/
+def OldGroup.run (g : OldGroup) : List (CommitEntry × Bool) → OldGroup × List Bool
+  | [] => (g, [])
+  | (e, r) :: rest =>
+    let (g', ok) := g.attempt e r
+    let (g'', oks) := OldGroup.run g' rest
+    (g'', ok :: oks)
+
 end MlsVerif.Resumption
